@@ -182,3 +182,49 @@ def expected_string_words(n):
     rem = [("byte", 4 * full + i) for i in range(n - 4 * full)]
     out.append(w32(rem + [0] * (4 - len(rem))))
     return out
+
+
+def frame_real(ctx, rtype, rid, operands):
+    """Instruction::assemble_into evaluated on a real instruction value with concrete operands (helpers evaluated in place, incl.
+    assemble_str) -> (word count stored in the first word or None, the words after the first as integers)"""
+    from . import progx, evalsum
+    from ..symeval import Panic as SPanic
+
+    class FH(progx.OpHooks):
+        def cast(self, v, ty, e):
+            if isinstance(v, tuple) and v and v[0] == "enum" and v[1].startswith("Op::") and not v[2]:
+                return ("opcode-word",)
+            return progx.OpHooks.cast(self, v, ty, e)
+
+        def call(self, p, args, e):
+            if p.split("::")[-1] == "assemble_str":
+                return progx._InlineMixin.call(self, "assemble_str_", args, e) if False else self.inline(ctx.rspirv.fn(ASM, "assemble_str"), args)
+            return progx.OpHooks.call(self, p, args, e)
+    f = ctx.rspirv.fn(ASM, "assemble_into", "Instruction", "Assemble")
+    res = f["sig"]["params"][1][0]
+    inst = evalsum._ti("IAdd", operands, rid, rtype)
+    h = FH(ctx)
+    h.self_ty = "Instruction"
+    env = {"self": inst, res: ("list", [("pre", 0)])}
+    try:
+        progx.make(h, "Instruction::assemble_into").run(f, env)
+    except SPanic as x:
+        return ("panic", str(x)), []
+    words = env[res][1]
+    first = words[1] if len(words) > 1 else None
+    cnt = None
+    if isinstance(first, tuple) and first and first[0] in ("opassign", "or") and ("opcode-word",) in first:
+        other = [x for x in first[1:] if x != ("opcode-word",) and x != "|"]
+        if len(other) == 1:
+            w = as_w32(other[0]) or other[0]
+            if isinstance(w, tuple) and w[0] == "w32" and all(isinstance(x, int) for x in w[1]):
+                w = sum(x << (8 * i) for i, x in enumerate(w[1]))
+            if isinstance(w, int) and w % (1 << 16) == 0:
+                cnt = w >> 16
+    body = []
+    for w in words[2:]:
+        w2 = as_w32(w) or w
+        if isinstance(w2, tuple) and w2[0] == "w32" and all(isinstance(x, int) for x in w2[1]):
+            w2 = sum(x << (8 * i) for i, x in enumerate(w2[1]))
+        body.append(w2)
+    return cnt if words[:1] == [("pre", 0)] else None, body
